@@ -190,6 +190,15 @@ func judgeC17(c c11Case) (string, string) {
 	listed = rerootLinks(listed)
 	var buf bytes.Buffer
 	if err := fsutil.WriteTar(context.Background(), view, &buf); err != nil {
+		// the walk lists a file that the same view refuses to open (known dependency finding, see C11): the member's
+		// header announces bytes that never come
+		if strings.Contains(err.Error(), "missed writing") {
+			for _, st := range listed {
+				if rel := strings.TrimPrefix(st.Path, pre); st.Mode&uint32(os.ModeType) == 0 && pmClass(c, rel) {
+					return "pm-incremental", fmt.Sprintf("WriteTar fails (%v): the filtered walk reports %q but Open through the same view refuses it", err, st.Path)
+				}
+			}
+		}
 		return "writetar-failed", err.Error()
 	}
 	ms, err := readTar(buf.Bytes())
